@@ -88,7 +88,16 @@ def gen_formulas(n, rng):
     fixed = [a * sympy.ceiling(12 / a), a * sympy.ceiling(12 / a) - 12, sympy.ceiling(a / b) - a / b, 12 / a + a, sympy.Max(12 / a, a * b),
              sympy.Max(a, b) - a, sympy.Min(a, b) * c, a * b / c, (a + b * c + b) / 8192, 1 / a + 1 / (a * b), sympy.ceiling(12 / a) * sympy.ceiling(8 / b),
              a * b - 12, 12 - a, a - b]
+    # low-degree polynomials / rational functions whose coefficients have mixed signs inside the box
+    # (the slope in one symbol changes sign with the other): the range analysis has to order interval
+    # end points correctly for them
+    for c1 in (2, 3, 5):
+        for c2 in (-3, 1, 3):
+            fixed += [a * (b - c1) + c2, (a - c1) * (b - 2) + c2, a * b - c1 * a - 2 * b + c2, c * (a * (b - c1) + b * (b - 4) + c2),
+                      (a - c1) / b + c2, sympy.Max(a - b, c - c1) + c2 - 1, sympy.Min(a * (b - c1), c2 * a)]
     for f in fixed:
+        if sympy.srepr(f) in seen:
+            continue
         out.append(f)
         seen.add(sympy.srepr(f))
     tries = 0
